@@ -7,6 +7,7 @@ import (
 
 	"golang.org/x/tools/go/cfg"
 
+	"verif/internal/core"
 	"verif/internal/flow"
 )
 
@@ -120,6 +121,15 @@ func c14Find(e *c14env) {
 		return r
 	}
 	rootOf := func(o types.Object) types.Object { return root(o, 4) }
+	// plc: the storage place an expression denotes — a variable (followed through the parameter
+	// bindings) or a struct field (a per-call state struct carrying frontier / result between helpers)
+	plc := func(g *flow.Func, x ast.Expr) types.Object {
+		o := c14place(g, x)
+		if v, ok := o.(*types.Var); ok && !v.IsField() {
+			return rootOf(o)
+		}
+		return o
+	}
 
 	// ---- the level loop (in the matcher itself)
 	var L ast.Stmt
@@ -175,7 +185,7 @@ func c14Find(e *c14env) {
 		return
 	}
 	gi, inner, mid := edges[0].g, edges[0].inner, edges[0].mid
-	frontier := rootOf(c14obj(gi, mid.slice))
+	frontier := plc(gi, mid.slice)
 	edgeID, _ := inner.Key.(*ast.Ident)
 	var edge, child types.Object
 	if edgeID != nil && edgeID.Name != "_" {
@@ -311,7 +321,10 @@ func c14Find(e *c14env) {
 			colAt[cl.at] = colSite{cl, g}
 			nCols++
 			if cl.dst != nil {
-				d := rootOf(cl.dst)
+				d := cl.dst
+				if v, ok := d.(*types.Var); ok && !v.IsField() {
+					d = rootOf(d)
+				}
 				if result != nil && result != d {
 					oneResult = false
 				}
@@ -368,8 +381,24 @@ func c14Find(e *c14env) {
 		return o != nil && nextRoot != nil && (o == next || rootOf(o) == nextRoot)
 	}
 	isFrontier := func(g *flow.Func, x ast.Expr) bool {
-		o := c14obj(g, x)
-		return o != nil && (o == frontier || rootOf(o) == frontier)
+		o := plc(g, x)
+		return o != nil && o == frontier
+	}
+	// every spelling of the frontier in the matcher and its helpers (m.frontier in step and in finish ...)
+	frontierRenders := map[string]bool{}
+	for _, g := range rfs {
+		g := g
+		ast.Inspect(g.Body, func(n ast.Node) bool {
+			if x, ok := n.(ast.Expr); ok {
+				switch x.(type) {
+				case *ast.Ident, *ast.SelectorExpr:
+					if isFrontier(g, x) {
+						frontierRenders[g.Render(x)] = true
+					}
+				}
+			}
+			return true
+		})
 	}
 
 	// ---- the loop over the final frontier: after the level loop in the matcher, or in a helper
@@ -414,8 +443,8 @@ func c14Find(e *c14env) {
 		postVal = postIt.elem
 	}
 	standsFor := func(g *flow.Func, x ast.Expr, target types.Object) bool {
-		o := c14obj(g, x)
-		return o != nil && target != nil && (o == target || rootOf(o) == target)
+		o := plc(g, x)
+		return o != nil && target != nil && o == target
 	}
 	isHashExpr := func(g *flow.Func, x ast.Expr) bool {
 		ix, ok := ast.Unparen(x).(*ast.IndexExpr)
@@ -517,7 +546,36 @@ func c14Find(e *c14env) {
 		_, isRoot := c14fieldRecv(g, cl.Elts[0], e.rootF)
 		return isRoot
 	}
+	// structInit: r is a composite literal of a struct that initialises the frontier field
+	structInit := func(g *flow.Func, r ast.Expr) (bool, bool) {
+		if u, ok := r.(*ast.UnaryExpr); ok && u.Op == token.AND {
+			r = ast.Unparen(u.X)
+		}
+		cl, ok := r.(*ast.CompositeLit)
+		if !ok {
+			return false, false
+		}
+		for _, el := range cl.Elts {
+			kv, ok := el.(*ast.KeyValueExpr)
+			if !ok {
+				continue
+			}
+			if k, ok := kv.Key.(*ast.Ident); ok && g.Info.Uses[k] != nil && g.Info.Uses[k] == frontier {
+				return isRootLit(g, kv.Value), true
+			}
+		}
+		return false, false
+	}
 	collectEvent := func(st *flow.State, cs colSite) {
+		// a copy into anything but the result map contributes nothing to the answer
+		if d := cs.dst; result != nil {
+			if v, ok := d.(*types.Var); ok && !v.IsField() {
+				d = rootOf(d)
+			}
+			if d != result {
+				return
+			}
+		}
 		switch {
 		case st.Is(c14evIn, flow.True):
 			if standsFor(cs.g, cs.recv, child) {
@@ -546,9 +604,62 @@ func c14Find(e *c14env) {
 	}
 	except = append(except, e.roles.split.obj)
 
+	// a `break` out of the level loop continues with the loop over the final frontier: like the
+	// early return it is right only when the frontier is empty. The state at a break is read at the
+	// condition of the if statement whose branch it ends.
+	type brk struct {
+		cond ast.Expr
+		want bool
+		at   ast.Node
+	}
+	var breaks []brk
+	var badBreak *flow.State
+	var badBreakAt ast.Node
+	unclassified := []ast.Node{}
+	{
+		pm := parentMap(f.Body)
+		for _, x := range breaksOut(f, L, labelOf(f.Body, L)) {
+			if gi == f && contains(mid.stmt, x) {
+				continue
+			}
+			if _, isRet := x.(*ast.ReturnStmt); isRet {
+				continue
+			}
+			ok := false
+			if bs, isBr := x.(*ast.BranchStmt); isBr && bs.Tok == token.BREAK {
+				if blk, isBlk := pm[x].(*ast.BlockStmt); isBlk {
+					if ifs, isIf := pm[blk].(*ast.IfStmt); isIf {
+						breaks = append(breaks, brk{ifs.Cond, ifs.Body == blk, x})
+						ok = true
+					}
+				}
+			}
+			if !ok {
+				unclassified = append(unclassified, x)
+			}
+		}
+	}
+	frontierEmpty := func(st *flow.State) bool {
+		for r := range frontierRenders {
+			if c14lenZero(st, r) {
+				return true
+			}
+		}
+		return next != nil && c14lenZero(st, c14varRender(gi, next))
+	}
+
 	res := analyze(c, f, flow.Config{
 		NoHavoc: true,
 		Inline:  inlineSamePkg(f, except...),
+		AfterAssume: func(st *flow.State, cond ast.Expr, outcome bool) {
+			for _, b := range breaks {
+				if b.cond == cond && b.want == outcome {
+					if (!st.Is(c14evScanned, flow.True) || !frontierEmpty(st)) && badBreak == nil {
+						badBreak, badBreakAt = st, b.at
+					}
+				}
+			}
+		},
 		OnBlock: func(st *flow.State, b *cfg.Block) {
 			if b.Stmt == nil {
 				return
@@ -728,28 +839,35 @@ func c14Find(e *c14env) {
 				if contains(f.Body, t) {
 					g = f
 				}
+				inL := st.Is(c14evInL, flow.True)
 				for i, l := range t.Lhs {
-					lo := c14obj(g, l)
+					r := ast.Unparen(t.Rhs[i])
+					// a state struct initialised with the frontier: m := topicMatch{frontier: []*node{root}, ..}
+					if !inL {
+						if v, ok := structInit(g, r); ok {
+							st.Set(c14evRootInit, c14boolToVal(v))
+						}
+					}
+					lo := plc(g, l)
 					if lo == nil {
 						continue
 					}
-					r := ast.Unparen(t.Rhs[i])
-					if g == f && lo == frontier {
-						if contains(L, t) {
+					if lo == frontier {
+						if inL {
 							_, isCall := r.(*ast.CallExpr)
 							switch {
-							case isNext(f, r) && st.Is(c14evScanned, flow.True):
+							case isNext(g, r) && st.Is(c14evScanned, flow.True):
 								st.Set(c14evAdvanced, flow.True)
-							case isCall && gi != f:
+							case isCall && gi != f && g == f:
 								st.Set(c14evViaHelper, flow.True)
 							default:
 								st.Set(c14evAdvanced, flow.False)
 							}
-						} else if t.Pos() < L.Pos() {
-							st.Set(c14evRootInit, c14boolToVal(isRootLit(f, r)))
+						} else if !st.Is(c14evInP, flow.True) && !st.Is(c14evScanned, flow.True) {
+							st.Set(c14evRootInit, c14boolToVal(isRootLit(g, r)))
 						}
 					}
-					if next != nil && (lo == next || (nextRoot != nil && rootOf(lo) == nextRoot)) {
+					if next != nil && (lo == next || (nextRoot != nil && lo == nextRoot)) {
 						st.Set(c14evNextNew, c14boolToVal(c14emptySlice(g, r)))
 					}
 				}
@@ -762,6 +880,11 @@ func c14Find(e *c14env) {
 					}
 					if o == frontier && t.Pos() < L.Pos() && contains(f.Body, t) {
 						st.Set(c14evRootInit, c14boolToVal(i < len(t.Values) && isRootLit(f, t.Values[i])))
+					}
+					if i < len(t.Values) && !st.Is(c14evInL, flow.True) {
+						if v, ok := structInit(f, ast.Unparen(t.Values[i])); ok {
+							st.Set(c14evRootInit, c14boolToVal(v))
+						}
 					}
 				}
 			}
@@ -856,13 +979,8 @@ func c14Find(e *c14env) {
 	}
 
 	// ---- exits
-	for _, x := range breaksOut(f, L, labelOf(f.Body, L)) {
-		if gi == f && contains(mid.stmt, x) {
-			continue
-		}
-		if _, isRet := x.(*ast.ReturnStmt); !isRet {
-			c.Undecide("R-C14-1", cons+"|early return only with empty frontier", pos(c, x), "the level loop is left by break/goto/panic; only returns are classified")
-		}
+	for _, x := range unclassified {
+		c.Undecide("R-C14-1", cons+"|early return only with empty frontier", pos(c, x), "the level loop is left by goto/panic or a break that does not end the branch of an if statement; only returns and such breaks are classified")
 	}
 	errNil := f.NilKey(src.errID)
 	var badEarly, badResult *flow.Exit
@@ -891,7 +1009,7 @@ func c14Find(e *c14env) {
 		if contains(L, ex.Return) {
 			early++
 			st := ex.State
-			empty := c14lenZero(st, c14varRender(f, frontier)) || (next != nil && c14lenZero(st, c14varRender(gi, next)))
+			empty := frontierEmpty(st)
 			scanned := st.Is(c14evScanned, flow.True)
 			if !scanned || !empty {
 				badEarly = ex
@@ -905,9 +1023,12 @@ func c14Find(e *c14env) {
 		}
 		return append([]string{"return at " + pos(c, ex.Return)}, witness(ex.State)...)
 	}
-	c.Check(badEarly == nil, "R-C14-1", cons+"|early return only with empty frontier", pos(c, L),
-		sprintf("%d abstract exits inside the level loop, all after the scan of the level with len(frontier)==0 established", early),
-		"findSubscribers returns from inside the level loop although the frontier is not known to be empty (or before the level was scanned): the remaining levels are not matched and exact/'+' subscriptions below are lost", exitW(badEarly)...)
+	if badBreak != nil && badEarly == nil {
+		c.Violate("R-C14-1", cons+"|early return only with empty frontier", pos(c, badBreakAt),
+			"the level loop is left by break although the frontier is not known to be empty (or before the level was scanned): the remaining levels are not matched, and the nodes reached so far are treated as the final frontier — subscribers of a prefix of the topic receive it", witness(badBreak)...)
+	} else {
+		c14findEarly(c, cons, L, badEarly, early, len(breaks), exitW)
+	}
 	if result == nil {
 		c.Violate("R-C14-1", cons+"|success returns the result map", pos(c, f.Body), "no collect site writes into a result map")
 	} else {
@@ -922,4 +1043,10 @@ func c14boolToVal(b bool) flow.Val {
 		return flow.True
 	}
 	return flow.False
+}
+
+func c14findEarly(c *core.Ctx, cons string, L ast.Node, badEarly *flow.Exit, early, breaks int, exitW func(*flow.Exit) []string) {
+	c.Check(badEarly == nil, "R-C14-1", cons+"|early return only with empty frontier", pos(c, L),
+		sprintf("%d abstract exits inside the level loop (%d break(s)), all after the scan of the level with len(frontier)==0 established", early, breaks),
+		"findSubscribers returns from inside the level loop although the frontier is not known to be empty (or before the level was scanned): the remaining levels are not matched and exact/'+' subscriptions below are lost", exitW(badEarly)...)
 }
